@@ -237,6 +237,29 @@ def correspond(ctx, scale=1):
         if got != want or i_.split()[1] != str(len(prs)):
             mm.append({"key": "kernel-model", "what": "kernel on [%d, %d] (%d KiB): model kernel gives (count, checksum, first, last) = %s, the oracle %s, count_primes %s" % (c[0], c[1], c[2], got, want, i_),
                        "failing_input": ({"start": c[0], "stop": c[1], "sieve_size": c[2], "observed": i_, "expected": len(prs)} if i_.split()[1] != str(len(prs)) else None)})
+    # the three-algorithm model kernel (C04_erat3_model_correct: sieving primes >= 164 dispatched to EratSmall / EratMedium / EratBig
+    # by the thresholds of the geometry model) vs the implementation and the independent oracle; intervals on which one, two or
+    # all three algorithms hold sieving primes (EratBig needs sqrt(stop) > 3 * sieve size)
+    k3 = [(7, 3000, 16), (1000, 2 * 10 ** 6, 16), (10 ** 8, 10 ** 8 + 600000, 16), (10 ** 9 + rng.below(10 ** 6), 10 ** 9 + 10 ** 6 + 700000, 32)]
+    for _ in range(8 * min(scale, 4)):
+        kb = rng.choice([16, 17, 23, 32, 64])
+        a = rng.choice([25 * 10 ** 8, 10 ** 10, 4 * 10 ** 10, 10 ** 11]) + rng.below(10 ** 9)
+        k3.append((a, a + rng.between(1, 12) * kb * 1024 * 30 + rng.below(400000), kb))
+    a = 10 ** 10 + rng.below(10 ** 9); k3.append((a, a + 1200000, 32))
+    rcm, om, em3 = ps.run([model], input="".join("LEAF kernel3 %s %d %d %d\n" % (l1s[0], c[2], c[0], c[1]) for c in k3), timeout=1800)
+    rci, oi, ei = ps.run([ps.build_probe("api_probe")], input="".join("COUNT 1 %d %d 1 %d\n" % (c[0], c[1], c[2]) for c in k3), timeout=600)
+    dist["kernel3_model_runs"] = len(k3)
+    if len(om.splitlines()) != len(k3):
+        mm.append({"key": "kernel3-model", "what": "three-algorithm kernel runs did not complete: %d of %d (%s)" % (len(om.splitlines()), len(k3), em3[-200:]), "failing_input": None})
+    for c, m_, i_ in zip(k3, om.splitlines(), oi.splitlines()):
+        ev += 1
+        prs = oracle.segment_primes(c[0], c[1])
+        want = "%d %d %d %d" % (len(prs), sum(prs) % 2305843009213693951, prs[0] if prs else 0, prs[-1] if prs else 0)
+        got = " ".join(m_.split()[:4])
+        sigs.add(("kernel3-run", tuple(x.split("=")[0] for x in m_.split()[5:] if not x.endswith("=0")), c[2]))
+        if got != want or i_.split()[1] != str(len(prs)):
+            mm.append({"key": "kernel3-model", "what": "kernel on [%d, %d] (%d KiB): three-algorithm model kernel gives (count, checksum, first, last) = %s (%s), the oracle %s, count_primes %s" % (c[0], c[1], c[2], got, " ".join(m_.split()[4:]), want, i_),
+                       "failing_input": ({"start": c[0], "stop": c[1], "sieve_size": c[2], "observed": i_, "expected": len(prs)} if i_.split()[1] != str(len(prs)) else None)})
     # the final sieve bytes of a real Erat run (pre-sieve, sieving primes > 163, cross-off, end masks) vs the byte arrays of the model
     # kernel (all ones, every sieving prime >= 7, AND of the unset masks, end masks: the object of C05_kernel_bytes_spec): byte for byte
     kb_cases = [(7, 3000, 16), (100, 5000, 16), (1000, 1100, 16), (31, 31, 16), (7, 20000, 32), (123457, 140000, 16), (163, 400, 16), (164, 164 + 3000, 17)]
